@@ -69,8 +69,12 @@ def gen_file(rng, tier, i, mode):
     allow = cm.word_classes_for(enc, paren=paren)
     if fmt != "export" and enc != "latin-1":
         allow.append("uspace")          # NBSP & co.: token characters, not separators
+    if fmt == "discobrackets":
+        allow.append("parentok")        # ( and ) as words of the token line
     continuous = fmt == "brackets"
     k = model.swarm_knobs(rng, tier, allow=allow, continuous=continuous)
+    if fmt == "brackets" and "parentok" in k["words"]:
+        k["words"] = [w for w in k["words"] if w != "parentok"] + ["ascii"]
     if fmt in ("brackets", "discobrackets") and "paren" in k["words"]:
         # raw parentheses cannot be written into a bracket file: only the -LRB- style names
         k["words"] = [w for w in k["words"] if w != "paren"] + ["ascii"]
